@@ -69,6 +69,10 @@ CLAIMED["C18"] = dict(
    text="(partial) Explicit formats: the real _matrix_from_edge_weights / __read_n_ints / __line_to_nums run on text whose numbers are symbolic (opaque atom tokens) and whose wrapping into lines is decided by forking at every token boundary: for FULL_MATRIX, UPPER_ROW, LOWER_DIAG_ROW, UPPER_DIAG_ROW and n <= 4 the k-th number lands in the cell TSPLIB95 prescribes (hence the formats agree on a common matrix). Round trip: a symbolic instance (real constructor) written by the real to_stream and read by the real _from_stream returns name, size, symmetry flag and matrix. Tour parser: arbitrary node sequences are accepted iff they are permutations of 1..max and then returned shifted by one.",
    note="Outside: EUC_2D/CEIL_2D/ATT/GEO coordinate distances (float sqrt/cos/acos: not encodable here) and the fact that every shipped tour has the documented length (a statement about shipped data). Numbers travel as opaque atoms (digit-level formatting assumed).",
    design="4/C18")
+CLAIMED["C19"] = dict(
+   text="(partial) Numbers travel through the real string code as opaque atom tokens. Instance.to_compact_str/from_compact_str: symbolic instance (real constructor, <= 3 item types, multiplicity 1 and > 1, sizes up to 10^12) -> equal matrix, dtype, bin, counts and total area (both sides run the real constructor), a ValueError on reading back is a violation. PackingSpace.to_str/from_str: every feasible packing of <= 2 rows round-trips (from_str re-validates with the real validate). GamePlan.__str__ + GamePlanSpace.from_str: plans of n in {2,4} with symbolic magnitudes under five fixed sign patterns. Orderings and InstanceSpace text forms: concrete round trips through the real API only.",
+   note="Outside: CSV writers/readers of packing_result / packing_statistics (moptipy EndResult CSV, pycommons CSV scopes, float formatting) - no bounded integer core to encode; digit-level formatting (str(int)/int(str) assumed inverse).",
+   design="4/C19")
 NA = {
  "C12": "quantifies over complete optimisation runs (moptipy Execution/Process, RNG streams, log files, budgets): no bounded symbolic encoding within reach; its solver-decidable ingredients are claimed under C01, C02, C04-C06, C19",
 }
